@@ -1,3 +1,4 @@
+pub mod aml_engine;
 pub mod tables_engine;
 
 use crate::json::J;
@@ -5,9 +6,25 @@ use crate::report::{Cfg, Report};
 
 /// Run the engines that decide `cfg.prop`.
 pub fn dispatch(cfg: &Cfg, _child: bool) -> (Report, Vec<(&'static str, J)>) {
-    let extra = Vec::new();
+    let mut extra = Vec::new();
+    // oracle self-test against crate-independent vectors: a wrong oracle is inconclusive
+    match crate::amlref::vectors::selftest() {
+        Ok(n) => extra.push(("oracle_selftest_vectors", J::Int(n as i128))),
+        Err(e) => {
+            let mut r = Report::default();
+            r.inconclusive(format!("oracle self-test failed: {}", e));
+            return (r, extra);
+        }
+    }
     let rep = match cfg.prop.as_str() {
-        "C01" | "C02" | "C03" | "C04" | "C05" | "C14" => tables_engine::run(cfg),
+        "C01" | "C02" | "C03" | "C04" | "C05" => tables_engine::run(cfg),
+        "C14" => {
+            let mut r = tables_engine::run(cfg);
+            r.merge(aml_engine::run_c14_aml(cfg));
+            r
+        }
+        "C06" => aml_engine::run_c06(cfg),
+        "C15" => aml_engine::run_c15(cfg),
         p => {
             let mut r = Report::default();
             r.inconclusive(format!("no engine for property {}", p));
